@@ -14,7 +14,8 @@ stream-API harness (`sa …` lines, go/harness/sapi_test.go). Independent of the
 * W-GATE      blocking mode: when a write returns `n nil` the pending queue holds no DATA of an earlier write
   (immediately: nothing but end-of-stream markers was queued before it; from the parked state: every DATA chunk queued
   afterwards is its own), and `writePending` is up;
-* R-SHORT     a read that reports a short buffer leaves the read-side state of its stream as it was, and the next read of
+* R-SHORT     a read that reports a short buffer leaves the read-side state of its stream (read error, readability,
+  reassembly queue) as it was, and the next read of
   that stream with a buffer of at least the reported size (nothing pushed in between) returns exactly that many bytes;
 * R-DEADLINE  a read that returns the deadline error leaves the reassembly state of its stream as it was.
 
@@ -250,6 +251,13 @@ def parseRst (impl : List String) : List (Nat × String) :=
 /-- reassembly part (last field) of a stream's `rst` token -/
 def rqOf (t : String) : String := (t.splitOn ":").getLast?.getD ""
 
+/-- a stream's `rst` token without the "read-deadline goroutine armed" flag (the deferred function of `ReadSCTP` cancels a
+goroutine that can no longer matter once `readErr` is set: not a message-level effect) -/
+def noTimer (t : String) : String :=
+  match t.splitOn ":" with
+  | [sid, e, _armed, readable, rq] => ":".intercalate [sid, e, readable, rq]
+  | _ => t
+
 /-- one read result (`read` or `rret`) against the read-side state before / after -/
 def checkRead (st : St) (sid buflen : Nat) (res : List String) (pre post : List (Nat × String)) : St × List String :=
   match res with
@@ -260,7 +268,7 @@ def checkRead (st : St) (sid buflen : Nat) (res : List String) (pre post : List 
     let exp := st.shortExp.find? (·.1 == sid)
     let st' := { st with shortExp := st.shortExp.filter (·.1 != sid) }
     if e == "short" then
-      let v := if before != after then [s!"[C18] R-SHORT: a short-buffer read changed the read side of stream {sid}: `{before.getD "?"}` → `{after.getD "?"}`"] else []
+      let v := if before.map noTimer != after.map noTimer then [s!"[C18] R-SHORT: a short-buffer read changed the read side of stream {sid}: `{before.getD "?"}` → `{after.getD "?"}`"] else []
       ({ st' with shortExp := (sid, n) :: st'.shortExp }, v)
     else if e == "deadline" then
       let v := if before.map rqOf != after.map rqOf then [s!"[C18] R-DEADLINE: a read that hit its deadline changed the reassembly state of stream {sid}"] else []
